@@ -29,7 +29,7 @@ from .common import ToolError, run_wild, sh
 ID_BASE = 0x1D00000000
 R_X86_64_64, R_X86_64_COPY, R_X86_64_GLOB_DAT = 1, 5, 6
 
-DEFS_DEFINED = ("weak", "strong", "common4", "common8", "unique")
+DEFS_DEFINED = ("weak", "strong", "common4", "common8", "common16", "unique")
 
 
 def def_id(fi, ni):
@@ -59,8 +59,36 @@ def all_names(cfg):
     return sorted(names)
 
 
-def file_asm(cfg, fi, names):
-    """Assembly text for file #fi (1-based)."""
+def filler_asm(fi, n_local, n_global):
+    """n_local local + n_global global filler symbols (1 byte each) in their own section."""
+    out = ['.section .data.vfill,"aw",@progbits']
+    for k in range(n_global):
+        out.append(f".globl Gf{fi}_{k}\nGf{fi}_{k}: .byte 0")
+    for k in range(n_local):
+        out.append(f"Lf{fi}_{k}: .byte 0")
+    return out
+
+
+def first_strong_ref(cfg, fi, names):
+    """The reference to pad in file fi: opts.pad_name if the file references it non-weakly, else none."""
+    f = cfg["files"][fi - 1]
+    want = cfg.get("opts", {}).get("pad_name")
+    for n in names:
+        if f["syms"].get(n, {}).get("def") == "undef" and (want is None or n == want):
+            return n
+    return None
+
+
+def symbol_index(obj_path, name):
+    for s in velf.Elf(obj_path).symtab:
+        if s["name"] == name:
+            return s["index"]
+    return None
+
+
+def file_asm(cfg, fi, names, fill=(0, 0)):
+    """Assembly text for file #fi (1-based). fill = (locals, globals) filler symbols placed BEFORE the file's
+    first non-weak undefined reference in the symbol table (scaled replay, see SymRes.tla / c03.py)."""
     f = cfg["files"][fi - 1]
     out = ['.section .data.vmark,"aw",@progbits', f'.ascii "{fmark(fi)}"']
     defs, refs = [], []
@@ -81,8 +109,8 @@ def file_asm(cfg, fi, names):
             if visline:
                 defs.append(visline)
             defs += [f"{n}:", f"    .quad {ident:#x}", f".size {n}, 8"]
-        elif d in ("common4", "common8"):
-            sz = int(d[-1])
+        elif d.startswith("common"):
+            sz = int(d[6:])
             defs.append(f".comm {n},{sz},{sz}")
             if visline:
                 defs.append(visline)
@@ -97,6 +125,9 @@ def file_asm(cfg, fi, names):
         else:
             raise ToolError(f"def kind {d}")
         refs.append(n)
+    if fill != (0, 0):
+        # globals are numbered in order of first appearance: the fillers must come before every name
+        out += filler_asm(fi, fill[0], fill[1])
     out += defs
     out += ['.section .data.vrefs,"aw",@progbits', ".balign 8", f'.ascii "{rmark(fi)}"']
     for n in refs:
@@ -147,11 +178,25 @@ def emit(cfg, d, variant=0):
         line.append("--allow-multiple-definition")
     files = cfg["files"]
     objs = {}
+    pad = cfg.get("opts", {}).get("pad_index")
     for fi, f in enumerate(files, 1):
         text = file_asm(cfg, fi, names)
         (d / f"f{fi}.s").write_text(text)
         _assemble(text, d / f"f{fi}.o")
         objs[fi] = f"f{fi}.o"
+        ref = first_strong_ref(cfg, fi, names)
+        if pad and ref and f["kind"] not in ("shared", "asneeded"):
+            # scaled replay: pad the symbol table so that the first non-weak reference is symbol number `pad`
+            idx0 = symbol_index(d / f"f{fi}.o", ref)
+            need = pad - idx0
+            if idx0 is None or need < 0:
+                raise ToolError(f"cannot pad file {fi}: reference {ref} at index {idx0}")
+            text = file_asm(cfg, fi, names, fill=(need // 2, need - need // 2))
+            (d / f"f{fi}.s").write_text(text)
+            _assemble(text, d / f"f{fi}.o")
+            got = symbol_index(d / f"f{fi}.o", ref)
+            if got != pad:
+                raise ToolError(f"padding of file {fi} put {ref} at symbol index {got}, wanted {pad}")
     fi = 1
     while fi <= len(files):
         k = files[fi - 1]["kind"]
@@ -221,10 +266,6 @@ def private_wild():
     from .common import TMP, build_wild, locked
     if "w" in _private and _private["w"].exists():
         return _private["w"]
-    if os.environ.get("VERIF_SYMRES_WILD"):
-        # development aid: replay against another build (a candidate fix, a mutant) without touching the shared one
-        _private["w"] = Path(os.environ["VERIF_SYMRES_WILD"])
-        return _private["w"]
     src = build_wild()
     TMP.mkdir(parents=True, exist_ok=True)
     dst = TMP / f"wild-pinned-{os.getpid()}"
@@ -293,7 +334,10 @@ def observe(path, cfg):
         dynrel[r["offset"]] = (r["type"], nm)
     copy_syms = {nm for (t, nm) in dynrel.values() if t == R_X86_64_COPY}
     symsizes = {}
+    sym_addrs = set()
     for s in e.symtab:
+        if s["shndx"] != 0 and s["type"] not in (3, 4):
+            sym_addrs.add(s["value"])
         if s["name"] in names and s["shndx"] != 0:
             symsizes[s["name"]] = (s["value"], s["size"])
     needed = e.needed
@@ -344,9 +388,12 @@ def observe(path, cfg):
                 bind[key] = "dyn"          # copy relocation: the definition lives in the shared object
                 continue
             if sec is not None and sec["type"] == 8:
+                # a COMMON: its identity is its SIZE - the st_size the output records for it, which must also
+                # fit in what was really allocated (distance to the next symbol / the end of the section)
                 sz = symsizes.get(n, (None, None))
                 if sz[0] == q:
-                    bind[key] = f"common{sz[1]}"
+                    nxt = min([a for a in sym_addrs if a > q] + [sec["addr"] + sec["size"]])
+                    bind[key] = f"common{sz[1]}" if nxt - q >= sz[1] else f"common{sz[1]}-but-{nxt - q}-bytes-allocated"
                 else:
                     bind[key] = "common?"
                 continue
@@ -362,17 +409,20 @@ import threading
 _retry_lock = threading.Lock()
 
 
-def run_case(cfg, d, linkers=("wild", "ld", "lld"), variant=0, threads=None, env=None, patch_wild=False):
+def run_case(cfg, d, linkers=("wild", "ld", "lld"), variant=0, threads=None, env=None, patch_wild=False,
+             wild_extra=None):
     """Emit + link + observe. Returns {linker: {"error":..., "loaded":..., "bind":..., "msg":...}}, line."""
     line = emit(cfg, d, variant)
     res = {}
     for lk in linkers:
         out = f"out.{lk}"
-        r = link(lk, line, d, out, threads=threads if lk == "wild" else None, env=env if lk == "wild" else None)
+        kw = dict(threads=threads if lk == "wild" else None, env=env if lk == "wild" else None,
+                  extra=wild_extra if lk == "wild" else None)
+        r = link(lk, line, d, out, **kw)
         if r.timed_out:
             # distinguish an overloaded machine from a deadlock: once more, alone, with a long timeout
             with _retry_lock:
-                r = link(lk, line, d, out, threads=threads if lk == "wild" else None, env=env if lk == "wild" else None)
+                r = link(lk, line, d, out, **kw)
         ec = error_class(r)
         o = {"error": ec, "rc": r.rc, "msg": (r.err + r.out)[-600:] if ec != "none" else ""}
         if ec == "none":
@@ -454,6 +504,9 @@ def replay_one(rec, d, idx, seed, aspects, reference, skip_load_divergent=None):
     cfg = {"files": rec["files"], "opts": {"allowMultiple": rec["opts"]["allowMultiple"],
                                            "undef": sorted(rec["opts"]["undefs"]),
                                            "wrap": sorted(rec["opts"]["wrap"])}}
+    if rec.get("_pad_index"):
+        cfg["opts"]["pad_index"] = rec["_pad_index"]
+        cfg["opts"]["pad_name"] = rec.get("_pad_name")
     rng = random.Random(seed * 1000003 + idx)
     variant = rng.choice([0, 0, 1, 2, 3, 4])
     threads = rng.choice([1, 2, 4, 8])
@@ -462,7 +515,10 @@ def replay_one(rec, d, idx, seed, aspects, reference, skip_load_divergent=None):
     # in wild's output of every n-th replayed case before it is observed -> the check must report a VIOLATION
     demo = os.environ.get("VERIF_SYMRES_DEMO", "")
     patch = demo.startswith("patch-output:") and idx > 0 and idx % int(demo.split(":")[1]) == 0
-    res, line = run_case(cfg, d, variant=variant, threads=threads, env=env, patch_wild=patch)
+    res, line = run_case(cfg, d, variant=variant, threads=threads, env=env, patch_wild=patch,
+                         wild_extra=rec.get("_wild_extra"))
+    if rec.get("_pad_index"):
+        line = line + [f"(every non-weak reference to {rec.get('_pad_name')} is symbol number {rec['_pad_index']} of its object)"]
     R = norm_outcome(rec["expect"], cfg)
     M = norm_outcome(rec["model"], cfg)
     W, G, L = (norm_outcome(res[k], cfg) for k in ("wild", "ld", "lld"))
@@ -675,6 +731,7 @@ def run_plan(ctx, prop, plan, aspects, reference, oracle_known=None, skip_load_d
     runs.append(cover)
     runs.append(racy)
     cov["binding_demo"] = binding_demo(ctx, prop, demo_pool, aspects, reference)
+    cov["_pool"] = demo_pool
     cov["states"] = states
     cov["transitions"] = trans
     cov["traces_validated_against_impl"] = replayed
@@ -727,3 +784,71 @@ def binding_demo(ctx, prop, pool, aspects, reference):
 
 
 _PATCH_OBSERVATION = False
+
+
+PAD_INDICES = (4998, 4999, 5000, 5001, 9999, 10000, 10001)
+
+
+def _loaded_ignoring(files, ignore_name):
+    """Input selection only (not an oracle): the loading fixpoint of a plain objects/members configuration when
+    non-weak references to ignore_name are not seen."""
+    names = sorted({n for f in files for n in f["syms"]})
+    prov = {}
+    for n in names:
+        for i, f in enumerate(files, 1):
+            if f["syms"][n]["def"] in DEFS_DEFINED:
+                prov[n] = i
+                break
+    L = {i for i, f in enumerate(files, 1) if f["kind"] != "member"}
+    while True:
+        N = set(L)
+        for i in L:
+            for n, s in files[i - 1]["syms"].items():
+                if s["def"] == "undef" and n != ignore_name and n in prov:
+                    N.add(prov[n])
+        if N == L:
+            return L
+        L = N
+
+
+def scaled_replay(ctx, prop, pool, n_cfgs, aspects, reference="both", indices=PAD_INDICES):
+    """Input-SIZE dimension the small-scope enumeration cannot contain: wild resolves the symbols of an object
+    in chunks of MAX_SYMBOLS_PER_WORK_ITEM = 5000.  Sampled (configuration, name) pairs in which a member is
+    loaded only because of non-weak references to that name are replayed with every object that holds such a
+    reference padded with filler symbols (half local, half global) so that the reference is symbol number i of
+    the object, for i around the chunk boundaries; the rule's expectation is unchanged (the spec does not depend
+    on symbol positions).  wild links with --strip-all so that the loaded-member set stays observable even when
+    resolution went wrong."""
+    import copy
+    cands = []
+    for rec in pool:
+        e = rec["expect"]
+        if e["error"] != "none" or rec.get("causes") or rec.get("loadDiv") or rec.get("visShared") or rec.get("commonLazy") \
+                or rec["opts"]["wrap"] or rec["opts"]["undefs"]:
+            continue
+        files = rec["files"]
+        if any(f["kind"] not in ("obj", "member", "wmember") for f in files):
+            continue
+        full = _loaded_ignoring(files, None)
+        if full != set(e["loaded"]):
+            continue
+        for n in sorted({n for f in files for n in f["syms"]}):
+            if _loaded_ignoring(files, n) != full:
+                cands.append((rec, n))
+    if not cands:
+        raise ToolError("scaled replay: no configuration with a member loaded through a non-weak reference in the sample")
+    rng = random.Random(ctx.seed)
+    rng.shuffle(cands)
+    items = []
+    k = 0
+    for rec, n in cands[:n_cfgs]:
+        for i in indices:
+            r2 = copy.deepcopy(rec)
+            r2["_pad_index"] = i
+            r2["_pad_name"] = n
+            r2["_wild_extra"] = ["--strip-all"]
+            items.append((900000 + k, r2))
+            k += 1
+    st = replay_records(ctx, prop, items, aspects, reference, jobs=8, label="-scaled")
+    return {"configurations": min(n_cfgs, len(cands)), "symbol_indices": list(indices),
+            **{kk: vv for kk, vv in st.items() if kk != "samples"}}
